@@ -129,7 +129,13 @@ func runPairCase(r *fw.Run, p *Pair, prop string, c *pairCase, framing bool) int
 		case "call":
 			var out json.RawMessage
 			var err error
-			if p := catch(func() { err = conn.Call(ctx, pairMethod, params, &out) }); p != "" {
+			p, hung := catchBounded(60*time.Second, func() { err = conn.Call(ctx, pairMethod, params, &out) })
+			if hung {
+				report("operation-hangs", fmt.Sprintf("call %s: Call has not returned 60 s after it began (its context ended after 25 s)", pc.ID))
+				go conn.Close()
+				return viol
+			}
+			if p != "" {
 				report("panic", p)
 				conn.Close()
 				return viol
@@ -152,7 +158,13 @@ func runPairCase(r *fw.Run, p *Pair, prop string, c *pairCase, framing bool) int
 			}
 			var recv func(context.Context, interface{}) (uint64, error)
 			var err error
-			if p := catch(func() { recv, err = conn.Send(ctx, pairMethod, params, flags) }); p != "" {
+			p, hung := catchBounded(60*time.Second, func() { recv, err = conn.Send(ctx, pairMethod, params, flags) })
+			if hung {
+				report("operation-hangs", fmt.Sprintf("call %s: Send has not returned 60 s after it began (its context ended after 25 s)", pc.ID))
+				go conn.Close()
+				return viol
+			}
+			if p != "" {
 				report("panic", p)
 				conn.Close()
 				return viol
@@ -165,7 +177,18 @@ func runPairCase(r *fw.Run, p *Pair, prop string, c *pairCase, framing bool) int
 			}
 			for i := range want {
 				var out json.RawMessage
-				fl, err := recv(ctx, &out)
+				var fl uint64
+				var err error
+				p, hung := catchBounded(60*time.Second, func() { fl, err = recv(ctx, &out) })
+				if hung || p != "" {
+					if hung {
+						report("operation-hangs", fmt.Sprintf("call %s reply %d of %d: receive has not returned 60 s after it began (its context ended after 25 s)", pc.ID, i, len(want)))
+					} else {
+						report("panic", p)
+					}
+					go conn.Close()
+					return viol
+				}
 				replies++
 				if err != nil {
 					report("receive-failed", fmt.Sprintf("call %s reply %d of %d: receive returned %T %v", pc.ID, i, len(want), err, err))
@@ -475,7 +498,8 @@ func c03Monitor(r *fw.Run, p *Pair, k int) {
 // closeBounded closes a client connection; false if Close did not return within the bound.
 func closeBounded(conn *varlink.Connection, bound time.Duration) bool {
 	ch := make(chan struct{})
-	go func() { conn.Close(); close(ch) }()
+	// closed twice, as by a caller that defers Close and also closes explicitly (the second call may return an error)
+	go func() { conn.Close(); conn.Close(); close(ch) }()
 	select {
 	case <-ch:
 		return true
